@@ -112,7 +112,8 @@ def _tlm_case_strategy(cfg):
         for key, kind in zip(("X_1", "X_2", "Z_A", "Z_B"), cfg):
             subs[key] = draw(_small_sub()) if kind == "finite" else kind
         subs["Zeta"] = draw(_small_sub())
-        L = draw(st.floats(-2, 2).map(lambda e: 10.0**e))
+        # the pore length is 1 by default (and in every stored example): draw it away from 1 except in one case out of eight
+        L = 1.0 if draw(st.integers(0, 7)) == 0 else 10.0 ** (draw(st.sampled_from([-1, 1])) * draw(st.floats(0.05, 2)))
         return {"cfg": list(cfg), "ast": ["E", "Tlm", {"L": {"v": L}}, "", subs], "f": draw(_freqs(4))}
 
     return s()
@@ -331,7 +332,7 @@ def tlm_enum(ctx):
 
     from hypothesis import find  # noqa: F401  (strategies are drawn with .example-free explicit seeds below)
 
-    reps = ctx.q(6, 20)
+    reps = ctx.q(10, 30)
     for ci, cfg in enumerate(TLM_CONFIGS):
         for r in range(reps):
             yield {"cfg_index": ci, "rep": r}
@@ -347,7 +348,8 @@ def body_tlm_enum(ctx, item):
     got = []
 
     @hseed(derive_seed(ctx.seed, "C02-tlm", item["cfg_index"], item["rep"]))
-    @settings(max_examples=1, database=None, deadline=None, phases=[Phase.generate], suppress_health_check=list(HealthCheck))
+    # Hypothesis always starts with the simplest example (all defaults): take the fourth one
+    @settings(max_examples=4, database=None, deadline=None, phases=[Phase.generate], suppress_health_check=list(HealthCheck))
     @given(_tlm_case_strategy(cfg))
     def t(case):
         got.append(case)
@@ -431,6 +433,6 @@ def parts(ctx):
         Part("elements", body_element, strategy=element_case(), n={"quick": 4800, "thorough": 90000}, budget_s={"quick": 90, "thorough": 1500}, case_timeout_s=30),
         Part("circuits", body_circuit, strategy=circuit_case(), n={"quick": 240, "thorough": 8000}, budget_s={"quick": 90, "thorough": 1500}, case_timeout_s=20),
         Part("tlm-configs", body_tlm_enum, items=tlm_enum, exhaustive=True, budget_s={"quick": 90, "thorough": 900}, case_timeout_s=20),
-        Part("tlm-random", body_tlm, strategy=tlm_case(), n={"quick": 160, "thorough": 6000}, budget_s={"quick": 90, "thorough": 900}, case_timeout_s=20),
+        Part("tlm-random", body_tlm, strategy=tlm_case(), n={"quick": 320, "thorough": 6000}, budget_s={"quick": 90, "thorough": 900}, case_timeout_s=20),
         Part("limits", body_limit, strategy=limit_case(), n={"quick": 128, "thorough": 4000}, budget_s={"quick": 80, "thorough": 1500}, case_timeout_s=40),
     ]
